@@ -321,6 +321,8 @@ def get_item(it, o, k):
         f, _ = o.cls.lookup("__getitem__")
         if f is not None:
             return it.call(f, [o, k], {})
+        if getattr(o.cls, "namedtuple", False) or any(getattr(c, "namedtuple", False) for c in o.cls.mro()):
+            return get_item(it, tuple(o.fields[n] for n in o.cls.dc_fields()), k)
         raise PyRaise(it.make_exc("TypeError", "object is not subscriptable"))
     if isinstance(o, (list, tuple, str)):
         if isinstance(k, slice):
